@@ -49,6 +49,10 @@ CHECKS = {
    text="The real get_func_moment / get_trig_moment / get_exp_moment run on a Dirac stub distribution at a symbolic point X; the returned term must equal X^a sin^b X cos^c X (resp. X^a exp(cX)) for all X, decided by z3 with (cos X, sin X) on the unit circle and exp X > 0, for all exponent triples up to a bound; mixing of Exp with Sin/Cos must be rejected; mgf existence regions and rejection outside them; constants; and end-to-end closed forms (exact mode) of programs whose functional arguments are finitely-valued draws, references or constants against the reference semantics.",
    ref="DESIGN.md 3/C13", tech="symbolic-data execution on a Dirac stub + z3 over the unit-circle / positive-exponential abstraction; end-to-end z3 equivalence with sin/cos/exp of constants as algebraic atoms",
    note="Trusted: linearity of expectation in the law (Dirac identities transfer given correct transforms, which C08 checks), z3. Bounded: (a,b,c) <= (2,3,3) quick / (3,4,4) thorough; six end-to-end programs, n <= 3/5. The 20-digit rounding of non-exact mode and end-to-end functionals of continuous draws are outside."),
+ "C18": dict(cat="other",
+   text="Solver-decided kernels: the real Graph.get_defective_nodes / is_variable_in_nonlinear_cycle / get_reachable_variables are executed path by path on symbolic adjacency labels and every feasible path is closed by an unsat query against a declarative specification, for ALL 3-node graphs (4 nodes with 8 symbolic edges in the thorough tier); Atom.get_normalized / to_arithm are shown equivalent to the comparison on the type for all operators and a family of finite types. Acceptance of the documented class is exercised by enumerating programs of the class (corpus + generated family): a refusal is a violation, known refusal mechanisms are listed by call site.",
+   ref="DESIGN.md 3/C18", tech="per-path symbolic execution with z3 proxies (pathfork) of the classification and atom kernels; enumeration of class programs for acceptance (not a solver verdict, labelled as such)",
+   note="Trusted: declarative specification of defective variables in checks/c18.py, z3. Universal acceptance over all program shapes is outside the reach of this technique: shapes are enumerated. Whatever is accepted is judged for correctness by C01 on the same corpus."),
 }
 NA_REASON = "check not built yet in this session (see DESIGN.md section 3 for the planned solver-based check)"
 
